@@ -68,6 +68,11 @@ def run_history(n, ops, keyed=False):
                         r = outcome(lambda: next(it)[1])
                     else:
                         r = outcome(lambda: next(it))
+                elif op.get('how') == 'np':
+                    import numpy as np
+                    r = outcome(lambda: ds[np.int64(idx)])
+                elif op.get('how') == 'slice' and 0 <= idx < n:
+                    r = outcome(lambda: list(ds[idx:idx + 1])[0])
                 elif keyed and op.get('by_key') and 0 <= idx < n:
                     r = outcome(lambda: ds[f'k{idx}'])
                 else:
@@ -149,6 +154,11 @@ def gen_history(rng, n, length, p_false):
         else:
             ops.append({'k': 'get', 'inst': rng.randrange(ninst), 'i': rng.randint(-n - 1, n),
                         'mem': rng.random() >= p_false})
+            u = rng.random()
+            if u < 0.15:
+                ops[-1]['how'] = 'np'          # the index as numpy integer
+            elif u < 0.3:
+                ops[-1]['how'] = 'slice'       # through a one-element slice
     return resolve(n, ops)
 
 
